@@ -18,6 +18,7 @@ from mc.report import Recorder
 
 PID = "C01"
 LEVEL = "exploration"
+REDUCED = {'quick': '3-motif lists use a covering (diagonal) set of motif contents and are skipped for A**L > 64', 'thorough': '3-motif lists use a covering (diagonal) set of motif contents; A in {5,6} limited to L<=4, w<=2'}
 RULE = ("cases = (function, alphabet size, sequence, motif(s), motif form, start/end/spacing) enumerated "
         "completely within the bound, no duplicates by construction; a case is non-trivial when the "
         "call has a defined outcome to compare: a valid span (exact expected value) or an invalid span "
